@@ -5,6 +5,7 @@
   t2-sector-select   transmission error on SECTOR SELECT packet 2 -> AssertionError (tt2.py:553)
   t3-ndef-write      attribute block unreadable (3 time-outs) -> TypeError in _write_ndef_data (tt3.py:229-230)
   t3-format          3 time-outs on one probing read -> format() returns True with a wrong attribute block
+  lites-protect      FeliCa Lite-S protect(): NDEF detection fails 3 times -> True, attribute block not made read-only
 Exit code 1 = defect reproduced, 0 = not reproduced.
 """
 import sys
@@ -80,9 +81,22 @@ def t3_format():
     return clf.ev[-1]["kind"] == "ok" and clf.ev[-1]["val"] == "True"
 
 
+def lites_protect():
+    from bind import c16
+    sc = dict(p=2, k="timeout", b=3, m="before")
+    fac = lambda: c16.make_lite("lites")                                                    # noqa: E731
+    proto, nretry, clf, sim, tag = c16.run_one(fac, c16.authenticated, lambda t: t.protect(), sc)
+    print("FeliCa Lite-S, authenticated; protect(): the 2nd command (attribute block read of tag.ndef) times out 3 times")
+    print("protect() ended with:", clf.ev[-1])
+    print("attribute block RW flag on the tag is still %d although the memory is now write protected (MC %s)" % (
+        sim.mem[0][10], bytes(sim.mem[0x88][0:6]).hex()))
+    return clf.ev[-1]["kind"] == "ok" and clf.ev[-1]["val"] == "True"
+
+
 if __name__ == "__main__":
     name = sys.argv[1] if len(sys.argv) > 1 else ""
-    fn = {"t2-sector-select": t2_sector_select, "t3-ndef-write": t3_ndef_write, "t3-format": t3_format}.get(name)
+    fn = {"t2-sector-select": t2_sector_select, "t3-ndef-write": t3_ndef_write, "t3-format": t3_format,
+          "lites-protect": lites_protect}.get(name)
     if fn is None:
         raise SystemExit(__doc__)
     bad = fn()
